@@ -211,6 +211,12 @@ int aes_gcm_decrypt(const AES_KEY *key, const uint8_t *iv, size_t ivlen,
 	uint8_t Y[16];
 	uint8_t T[16];
 
+	// without a tag nothing is authenticated, and T[] holds at most a full tag
+	if (taglen < 1 || taglen > AES_GCM_MAX_TAG_SIZE) {
+		error_print();
+		return -1;
+	}
+
 	aes_encrypt(key, H, H);
 
 	if (ivlen == 12) {
